@@ -93,6 +93,8 @@ pub struct Cfg {
 
     // broker model
     pub connack: ConnackTemplate,
+    /// CONNACK contents on connection i (index i-1, last entry repeats); empty = `connack` everywhere
+    pub connack_by_conn: Vec<ConnackTemplate>,
     /// Receive Maximum announced on connection i (index i-1, last entry repeats); empty = the template's value everywhere
     pub receive_maximum_by_conn: Vec<Option<u16>>,
     /// session-present answers the broker may give when it holds a session for the client
@@ -139,6 +141,7 @@ impl Cfg {
             clock: Clock::Prompt,
             connack: ConnackTemplate::default(),
             receive_maximum_by_conn: Vec::new(),
+            connack_by_conn: Vec::new(),
             session_answers: vec![true],
             inbound: Vec::new(),
             max_inbound: 0,
@@ -157,8 +160,12 @@ impl Cfg {
         if self.caps.is_empty() { self.cap } else { self.caps[(connection.max(1) - 1).min(self.caps.len() - 1)] }
     }
 
+    pub fn connack_for(&self, connection: usize) -> &ConnackTemplate {
+        if self.connack_by_conn.is_empty() { &self.connack } else { &self.connack_by_conn[(connection.max(1) - 1).min(self.connack_by_conn.len() - 1)] }
+    }
+
     pub fn receive_maximum_for(&self, connection: usize) -> Option<u16> {
-        if self.receive_maximum_by_conn.is_empty() { self.connack.receive_maximum } else { self.receive_maximum_by_conn[(connection.max(1) - 1).min(self.receive_maximum_by_conn.len() - 1)] }
+        if self.receive_maximum_by_conn.is_empty() { self.connack_for(connection).receive_maximum } else { self.receive_maximum_by_conn[(connection.max(1) - 1).min(self.receive_maximum_by_conn.len() - 1)] }
     }
 
     pub fn connect_options(&self) -> ConnectOptions {
@@ -186,9 +193,9 @@ impl Cfg {
     }
 
     pub fn describe(&self) -> String {
-        format!("{}[{}] v={} offline={:?} drain1={} retries={:?} resolver={:?} ka={:?} ping_to={:?} rejoin={:?} cid={:?} cap={}{:?} clock={:?} connack={:?} rm_by_conn={:?} submits={:?} max_submits={} max_conns={} budget={} depth={}",
+        format!("{}[{}] v={} offline={:?} drain1={} retries={:?} resolver={:?} ka={:?} ping_to={:?} rejoin={:?} cid={:?} cap={}{:?} clock={:?} connack={:?} rm_by_conn={:?} connack_by_conn={:?} submits={:?} max_submits={} max_conns={} budget={} depth={}",
             self.family, self.name, if self.mqtt311 { "3.1.1" } else { "5" }, self.offline, self.one_at_a_time, self.max_retries, self.resolver, self.keep_alive,
-            self.ping_timeout, self.rejoin, self.client_id, self.cap, self.caps, self.clock, self.connack, self.receive_maximum_by_conn,
+            self.ping_timeout, self.rejoin, self.client_id, self.cap, self.caps, self.clock, self.connack, self.receive_maximum_by_conn, self.connack_by_conn,
             self.submits.iter().map(|s| s.label.clone()).collect::<Vec<_>>(), self.max_submits, self.max_conns, self.budget, self.max_depth)
     }
 }
